@@ -1,13 +1,44 @@
+import copy
+import hashlib
 import importlib
+import json
+import os
 import sys
 
-from .common import parse_args
+from .common import parse_args, REPO, ROOT
+
+
+def changed_sources():
+    """Library source files whose content differs from source_fingerprint.json (the tree the models were fitted to)."""
+    f = ROOT / "source_fingerprint.json"
+    if not f.exists():
+        return []
+    rec = json.load(open(f))["files"]
+    out = []
+    for p in sorted((REPO / "pddl_plus_parser").rglob("*.py")):
+        rel = str(p.relative_to(REPO))
+        if rec.get(rel) != hashlib.sha256(p.read_bytes()).hexdigest():
+            out.append(rel)
+    out += [r for r in rec if not (REPO / r).exists()]
+    return out
 
 
 def main():
     args = parse_args(sys.argv[1:])
     mod = importlib.import_module("harness.props." + args.prop.lower())
-    sys.exit(mod.run(args))
+    rc = mod.run(args)
+    # The library's source differs from the tree the models were fitted to and the quick run found nothing: look again
+    # with another seed (other generated inputs, another PYTHONHASHSEED) before answering.  Never on the unchanged tree.
+    if rc == 0 and args.tier == "quick" and not getattr(args, "replay", None) and os.environ.get("VERIF_NO_ESCALATE") != "1":
+        ch = changed_sources()
+        if ch:
+            sys.stderr.write("note: %d source file(s) differ from source_fingerprint.json (%s%s): second quick run with another seed\n"
+                             % (len(ch), ", ".join(ch[:3]), " ..." if len(ch) > 3 else ""))
+            args2 = copy.copy(args)
+            args2.seed = args.seed + 7919
+            os.environ["VERIF_ESCALATED"] = "1"
+            rc = mod.run(args2)
+    sys.exit(rc)
 
 
 if __name__ == "__main__":
